@@ -16,7 +16,7 @@ META = {
              "nesting depth >= 2 or it is an array/list/static-array constant with >= 1 element"),
     "required": ["monitor:inhabits", "monitor:decoded-value", "monitor:reported-type", "monitor:helper-tag", "monitor:const-load", "monitor:program-load",
                  "feature:func-value", "feature:array", "feature:sugar", "monitor:selftest-negative", "monitor:func-root-signature",
-                 "monitor:embedded-elements", "feature:one-shot-iterables"],
+                 "monitor:embedded-elements", "feature:one-shot-iterables", "monitor:const-replaced"],
     "reach": ["hugr.val:Sum.type_", "hugr.val:Function.type_", "hugr.build.dfg:DfBase.load",
               "hugr.std.int:IntVal.to_value", "hugr.std.collections.array:ArrayVal.to_value"],
     "assumptions": [
@@ -167,6 +167,51 @@ def check_value(ctx, case, stratum="value"):
                      wire.canon(lj["datatype"]), stratum=stratum, case=case)
 
 
+def check_const_replaced(ctx, case, stratum="const-replaced"):
+    """One Const node whose value is exchanged after its type has been asked for (in place, or by a copy made with
+    dataclasses.replace): what it offers on its static port, and what a LoadConstant built for it afterwards produces,
+    is the type of the value it holds NOW -- nothing derived from the earlier value may be remembered."""
+    import dataclasses
+
+    from hugr import ops, tys
+    from hugr.build import Dfg
+    from vf.gen.types import Builder, wire_ty
+    from vf.gen.values import VBuilder, type_of
+    from vf.oracles import wire
+
+    tb = Builder()
+    V1, V2 = VBuilder(tb).val(case["v1"]), VBuilder(tb).val(case["v2"])
+    t2 = wire.canon(wire_ty(type_of(case["v2"])))
+    d = Dfg()
+    n = d.add_const(V1)
+    h = d.hugr
+    # the first value's type is asked for in every way there is
+    h.port_kind(n.out(0))
+    d.load(n)
+    h[n].op.port_kind(n.out(0))
+    ctx.count("monitor:const-replaced")
+    if case["how"] == "inplace":
+        h[n].op.val = V2
+    else:
+        h[n].op = dataclasses.replace(h[n].op, val=V2)
+    ck = h.port_kind(n.out(0))
+    if not isinstance(ck, tys.ConstKind) or wire.canon(dump(ck.ty)) != t2:
+        ctx.disc(None, "const-port-kind", ["Const node out(0) after its value was exchanged", case["how"]], t2,
+                 repr(ck), stratum=stratum, case=case)
+    ld = d.load(n)
+    lop = h[ld].op
+    ot = h.port_type(ld.out(0))
+    if ot is None or wire.canon(dump(ot)) != t2:
+        ctx.disc(None, "loadconst-out-type", ["LoadConst built after the exchange", case["how"]], t2, repr(ot),
+                 stratum=stratum, case=case)
+    lj = lop._to_serial(ld).model_dump(mode="json")
+    cj = h[n].op._to_serial(n).model_dump(mode="json")
+    if wire.canon(lj["datatype"]) != wire.type_of_value(cj["v"]):
+        ctx.disc(None, "const-vs-load-wire-type", ["datatype after the exchange", case["how"]],
+                 wire.type_of_value(cj["v"]), wire.canon(lj["datatype"]), stratum=stratum, case=case)
+    return True
+
+
 def check_func_root(ctx, case):
     """A function value whose body is rooted at a TailLoop (the dataflow parent whose outer signature differs from
     its body's): "a function-valued constant has the signature of its body"."""
@@ -301,6 +346,24 @@ def run(ctx):
             case["tag"] = 1   # the loop ends at once (empty just_outputs)
         ok = ctx.guard("func-root", case, check_func_root, ctx, case)
         ctx.case("func-root", case, bool(ok) and bool(case["just"] or case["rest"]))
+    from vf.gen.values import constable as _constable, type_of as _type_of
+
+    for i in ctx.mine(ctx.n(600, 20000)):
+        r = ctx.rng("const-replaced", i)
+        g = VGen(r)
+        vs = []
+        for _ in range(40):
+            td_ = g.const_type(r.randint(0, 2))
+            if _constable(td_):
+                vs.append(g.value(td_, 2))
+            if len(vs) == 2 and _type_of(vs[0]) != _type_of(vs[1]):
+                break
+            vs = vs[:1] if len(vs) == 2 else vs
+        if len(vs) != 2:
+            continue
+        case = {"v1": vs[0], "v2": vs[1], "how": ["inplace", "replace"][i % 2]}
+        ok = ctx.guard("const-replaced", case, check_const_replaced, ctx, case)
+        ctx.case("const-replaced", case, bool(ok))
     maxd = ctx.n(3, 5)
     for i in ctx.mine(ctx.n(12000, 400000)):
         r = ctx.rng("value", i)
@@ -323,5 +386,7 @@ def replay(ctx, rec):
         check_program_loads(ctx, rec["case"])
     elif rec.get("stratum") == "func-root":
         check_func_root(ctx, rec["case"])
+    elif rec.get("stratum") == "const-replaced":
+        check_const_replaced(ctx, rec["case"])
     else:
         check_value(ctx, rec["case"])
